@@ -65,6 +65,20 @@ class Abs:
         return False
 
 
+def stdlib_class(name):
+    """the class a dotted name denotes in the standard library, or None"""
+    import importlib
+    import sys
+    mod, _, attr = name.rpartition(".")
+    if not mod or mod.split(".")[0] not in sys.stdlib_module_names:
+        return None
+    try:
+        obj = getattr(importlib.import_module(mod), attr)
+    except Exception:
+        return None
+    return obj if isinstance(obj, type) else None
+
+
 BUILTIN_TYPES = {"str": str, "int": int, "float": float, "list": list,
                  "dict": dict, "tuple": tuple, "bool": bool, "set": set}
 
@@ -1000,6 +1014,12 @@ class Evaluator:
         if isinstance(ent, External) and ent.name.split(".")[-1] in \
                 BUILTIN_TYPES:
             return isinstance(value, BUILTIN_TYPES[ent.name.split(".")[-1]])
+        if isinstance(ent, External):
+            real = stdlib_class(ent.name)
+            if real is not None:
+                # a concrete Python value against a standard-library class
+                # (collections.UserList, numbers.Number, ...)
+                return isinstance(value, real)
         raise Unsupported("table evaluator: isinstance(%r, %s)" %
                           (value, unparse(clsnode)))
 
